@@ -43,6 +43,9 @@ Definition unmarshal_priv (data : bytes) : outcome bytes :=
   let '(ty, d) := r in
   if ty =? key_type_ed25519 then unmarshal_ed25519_priv d else Err EBadKeyType.
 
+(* peer.IDFromPrivateKey: the id of the public half *)
+Definition priv_id (k : bytes) : outcome bytes := p <- priv_get_public k ;; Ok (id_from_pub p).
+
 Definition wf_priv (k : bytes) : Prop := zlen k = ed_priv_size /\ all_bytes k = true.
 
 (* ---------- keypem/keypem.go ---------- *)
